@@ -10,6 +10,8 @@
  * REV3 configs: one named unit taken through 4 incarnations (3 revive cycles)
  * with every combination of how it terminates / how the primary waits / which
  * revive call is used.
+ * DIRECT config: ABT_self_suspend_to / ABT_self_yield_to / ABT_self_exit_to:
+ * the target reads its own state (RUNNING) and the caller's as its first action.
  *
  * The model is observation driven: units log slice begin / yield / finish, the
  * primary logs its calls; the model only predicts what the documentation fixes
@@ -21,7 +23,7 @@
 #include "c12_asan.h"
 
 enum { K_ULT, K_ULTM, K_TASK };
-enum { M_HIST, M_REV3 };
+enum { M_HIST, M_REV3, M_DIRECT };
 enum { MS_NONE, MS_READY, MS_RUNNING, MS_BLOCKED, MS_TERM,
        MS_WAITING /* inside a join: BLOCKED or READY (yield loop), both allowed */ };
 
@@ -34,19 +36,22 @@ typedef struct {
 } cfg_t;
 
 static const cfg_t cfgs[] = {
-    { "hist ULT+ULT D5", 1, M_HIST, { K_ULT, K_ULT }, 5 },
-    { "hist ULT+TASK D5", 1, M_HIST, { K_ULT, K_TASK }, 5 },
+    { "hist ULT+ULT D6", 1, M_HIST, { K_ULT, K_ULT }, 6 },
+    { "hist ULT+TASK D6", 1, M_HIST, { K_ULT, K_TASK }, 6 },
     { "hist ULTM+ULTM D5", 1, M_HIST, { K_ULTM, K_ULTM }, 5 },
     { "hist TASK+TASK D5", 1, M_HIST, { K_TASK, K_TASK }, 5 },
     { "rev3 ULT reduced", 1, M_REV3, { K_ULT, K_ULT }, 0 },
     { "rev3 TASK", 1, M_REV3, { K_TASK, K_ULT }, 1 },
     { "rev3 ULTM reduced", 1, M_REV3, { K_ULTM, K_ULTM }, 0 },
+    { "directed switch: state of target and caller", 1, M_DIRECT,
+      { K_ULT, K_ULT }, 0 },
     { "hist ULT+ULT D7", 0, M_HIST, { K_ULT, K_ULT }, 7 },
     { "hist ULT+TASK D7", 0, M_HIST, { K_ULT, K_TASK }, 7 },
     { "hist ULTM+ULT D7", 0, M_HIST, { K_ULTM, K_ULT }, 7 },
     { "hist TASK+TASK D7", 0, M_HIST, { K_TASK, K_TASK }, 7 },
     { "rev3 ULT full", 0, M_REV3, { K_ULT, K_ULT }, 1 },
     { "rev3 ULTM full", 0, M_REV3, { K_ULTM, K_ULT }, 1 },
+    { "hist ULT+ULT D8", 0, M_HIST, { K_ULT, K_ULT }, 8 },
 };
 
 #define MAXGEN 16
@@ -840,6 +845,91 @@ static void run_rev3(void)
     p_free(0);
 }
 
+/* ---------------------------------------------------------- DIRECT mode */
+/* A switches directly to B with ABT_self_suspend_to / ABT_self_yield_to /
+ * ABT_self_exit_to; B, as its first action, reads its own state (must be
+ * RUNNING: it is executing) and A's (BLOCKED / READY / TERMINATED). */
+enum { D_SUSPEND_TO, D_YIELD_TO, D_EXIT_TO };
+static ABT_thread dA, dB;
+static int d_variant, d_b_ran, d_a_back;
+
+static int state_of(ABT_thread t)
+{
+    ABT_thread_state s;
+    OK(ABT_thread_get_state(t, &s));
+    nsamples++;
+    return (int)s;
+}
+
+static void direct_B(void *arg)
+{
+    static const char *const vn[] = { "ABT_self_suspend_to", "ABT_self_yield_to",
+                                      "ABT_self_exit_to" };
+    ABT_thread me;
+    OK(ABT_self_get_thread(&me));
+    abtmc_check(me == dB, "harness", "B is not B");
+    d_b_ran++;
+    int sb = state_of(me), sa = state_of(dA);
+    abtmc_check(sb == ABT_THREAD_STATE_RUNNING, "self_state_not_running",
+                "the target of %s executes while ABT_thread_get_state reports "
+                "it as %s",
+                vn[d_variant], sname(sb));
+    int want = d_variant == D_SUSPEND_TO
+                   ? ABT_THREAD_STATE_BLOCKED
+                   : d_variant == D_YIELD_TO ? ABT_THREAD_STATE_READY
+                                             : ABT_THREAD_STATE_TERMINATED;
+    abtmc_check(sa == want, "state_mismatch",
+                "after %s the caller's state is %s, expected %s", vn[d_variant],
+                sname(sa), sname(want));
+    if (d_variant == D_SUSPEND_TO)
+        OK(ABT_thread_resume(dA));
+}
+
+static void direct_A(void *arg)
+{
+    ABT_thread t = ABT_THREAD_NULL;
+    abtmc_check(state_of(dA) == ABT_THREAD_STATE_RUNNING,
+                "self_state_not_running", "A reads its own state as not RUNNING");
+    /* the user pops the target before a directed switch */
+    OK(ABT_pool_pop_thread(pool0, &t));
+    abtmc_check(t == dB, "harness", "popped something else than B");
+    switch (d_variant) {
+        case D_SUSPEND_TO: OK(ABT_self_suspend_to(dB)); break;
+        case D_YIELD_TO: OK(ABT_self_yield_to(dB)); break;
+        default: {
+            int r = ABT_self_exit_to(dB);
+            abtmc_check_fail("code_after_exit", "ABT_self_exit_to returned %d",
+                             r);
+        }
+    }
+    d_a_back++;
+    abtmc_check(d_b_ran == 1, "directed_switch_order",
+                "the caller continued before the target ran");
+    abtmc_check(state_of(dA) == ABT_THREAD_STATE_RUNNING,
+                "self_state_not_running",
+                "A reads its own state as not RUNNING after being resumed");
+}
+
+static void run_direct(void)
+{
+    d_variant = abtmc_choose(3, ABTMC_B_FREE);
+    OK(ABT_thread_create(pool0, direct_A, NULL, ABT_THREAD_ATTR_NULL, &dA));
+    OK(ABT_thread_create(pool0, direct_B, NULL, ABT_THREAD_ATTR_NULL, &dB));
+    abtmc_check(state_of(dA) == ABT_THREAD_STATE_READY &&
+                    state_of(dB) == ABT_THREAD_STATE_READY,
+                "state_mismatch", "created units are not READY");
+    OK(ABT_thread_join(dA));
+    OK(ABT_thread_join(dB));
+    abtmc_check(state_of(dA) == ABT_THREAD_STATE_TERMINATED &&
+                    state_of(dB) == ABT_THREAD_STATE_TERMINATED,
+                "join_returned_early", "joined units are not TERMINATED");
+    abtmc_check(d_b_ran == 1 && d_a_back == (d_variant != D_EXIT_TO), "ran_twice",
+                "B ran %d times, A continued %d times", d_b_ran, d_a_back);
+    OK(ABT_thread_free(&dA));
+    OK(ABT_thread_free(&dB));
+    n_exits = d_variant; /* outcome tag */
+}
+
 /* -------------------------------------------------------------- scenario */
 
 static void scenario(int cfg)
@@ -857,8 +947,10 @@ static void scenario(int cfg)
     abtmc_window_begin();
     if (C->mode == M_HIST)
         run_hist();
-    else
+    else if (C->mode == M_REV3)
         run_rev3();
+    else
+        run_direct();
     abtmc_window_end();
 
     sample_all("end");
@@ -869,7 +961,7 @@ static void scenario(int cfg)
     abtmc_observe("cancelled=%d revives=%d blocked=%d exits=%d",
                   n_cancel_term > 2 ? 2 : n_cancel_term,
                   n_revive > 3 ? 3 : n_revive, n_blocked_seen,
-                  n_exits > 1 ? 1 : n_exits);
+                  C->mode == M_DIRECT ? n_exits : n_exits > 1 ? 1 : n_exits);
     abtmc_stat("state_samples", nsamples);
     abtmc_stat("slices", n_slices);
     h_finalize();
